@@ -23,7 +23,10 @@ ASSUMPTIONS = [
     "billing: the alteration is applied to the billed amounts; a NaN read removes its period's usage",
 ]
 
-FAMILIES = ["daily", "billing", "hourly", "hourly_solar", "caltrack", "hourly_satgap"]
+FAMILIES = ["daily", "billing", "hourly", "hourly_solar", "caltrack", "hourly_satgap", "hourly_pv"]
+# hourly_pv: net-metered site whose PV starts on day 181 of the baseline (pv_start given for the baseline); the model uses the
+# data class's has_pv flag as a categorical feature; the reporting data leave pv_start unset (documented: PV from the first day
+# on) and carry net readings whose first export happens on the fourth day
 # hourly_satgap: the hourly family fitted on a baseline with a 14-hour outage on every Saturday of February: every (month, weekday)
 # combination is present and metered and nothing is disqualified, but those four days fall below min_daily_training_hours
 SETS = [("week", "2022-07-04", 7), ("dst_month", "2022-03-01", 31), ("year", "2022-01-01", 365), ("feb", "2022-02-01", 28)]
@@ -35,7 +38,7 @@ def alterations(n, family):
     """name -> function(values ndarray) -> ndarray or None (= column absent)"""
     rng = np.random.default_rng(12345)
     perm = rng.permutation(n)
-    unit = 24 if family in ("hourly", "hourly_solar", "caltrack", "hourly_satgap") else 1
+    unit = 24 if family in ("hourly", "hourly_solar", "caltrack", "hourly_satgap", "hourly_pv") else 1
     runs = [1, 6, 24, 48] if unit == 24 else [1, 3, 10]
 
     def nan_run(length):
@@ -60,6 +63,10 @@ def alterations(n, family):
         # blank stretches at the END of the period (ending inside a day for the hourly families) and at its very first / last value
         out += [("last_quarter_nan", lambda v: np.where(np.arange(n) < n - max(1, n // 4), v, np.nan)),
                 ("first_and_last_nan", lambda v: np.where((np.arange(n) == 0) | (np.arange(n) == n - 1), np.nan, v))]
+    if n >= 30:
+        # exact zeros (for electricity: documented as missing usage) scattered over the period, and on a regular sub-pattern
+        out += [("zeros_scattered", lambda v: np.where(np.arange(n) % 23 == 5, 0.0, v)),
+                ("zeros_every_3rd_block", lambda v: np.where((np.arange(n) // 6) % 3 == 2, 0.0, v))]
     out += [
         ("all_nan", lambda v: np.full(n, np.nan)),
         ("absent", lambda v: None),
@@ -70,6 +77,16 @@ def alterations(n, family):
     return out
 
 
+def _pv_generation(index, first_day=0):
+    """kWh exported per hour by a PV array (0 at night), none before day `first_day` of the index"""
+    local = index.tz_localize(None)
+    hr = local.hour.to_numpy()
+    dnum = (local.normalize() - local[0].normalize()).days.to_numpy()
+    g = 4.0 * np.clip(np.sin(np.pi * (hr - 6) / 12.0), 0, None)
+    g[dnum < first_day] = 0.0
+    return g
+
+
 def build_reporting(family, start, days, values_fn, variant="plain"):
     """reporting data object whose usage is values_fn(base usage); weather identical in every alteration.
     variants: plain | weather_gaps (hourly families: NaN runs in temperature and ghi) | six_am_hourly_feed (daily: meter read
@@ -77,6 +94,12 @@ def build_reporting(family, start, days, values_fn, variant="plain"):
     import opendsm.eemeter as em
 
     fam = "hourly" if family == "hourly_satgap" else family
+    if fam == "hourly_pv":
+        fr = ds.hourly_frame(start=start, days=days, tz=ZONE, wseed=1, seed=11)
+        net = fr["observed"].to_numpy() - _pv_generation(fr.index, first_day=3)  # three overcast days first: no export yet
+        v = values_fn(net)
+        fr = fr.drop(columns=["observed"]) if v is None else fr.assign(observed=v)
+        return em.HourlyReportingData(fr, is_electricity_data=True)
     if variant == "dup_rows":
         return _dup_rows(fam, start, days, values_fn)
     if fam == "daily" and variant == "six_am_hourly_feed":
@@ -88,6 +111,13 @@ def build_reporting(family, start, days, values_fn, variant="plain"):
         if v is None:
             return em.DailyReportingData.from_series(None, temp, is_electricity_data=True)
         return em.DailyReportingData.from_series(pd.Series(v, index=idx, name="observed"), temp, is_electricity_data=True)
+    if fam == "daily" and variant == "hourly_frame":
+        # the daily class handed an HOURLY frame (usage and temperature per hour): it aggregates both to days itself
+        fr = ds.hourly_frame(start=start, days=days, tz=ZONE, wseed=1, seed=11)
+        v = values_fn(fr["observed"].to_numpy())
+        if v is None:
+            return em.DailyReportingData(fr[["temperature"]], is_electricity_data=True)
+        return em.DailyReportingData(pd.DataFrame({"observed": v, "temperature": fr["temperature"]}, index=fr.index), is_electricity_data=True)
     if fam in ("daily", "billing"):
         fr = ds.daily_frame(start=start, days=days, tz=ZONE, wseed=1, seed=11, noise=0.05)
         if fam == "daily":
@@ -158,6 +188,15 @@ _FIT = {}
 
 
 def fitted(family):
+    if family == "hourly_pv" and family not in _FIT:
+        import opendsm.eemeter as em
+
+        frame = c02.baseline_frame("hourly", 365, seed=0)
+        frame["observed"] = frame["observed"].to_numpy() - _pv_generation(frame.index, first_day=180)
+        data = em.HourlyBaselineData(frame, is_electricity_data=True, pv_start=str(frame.index[180 * 24].date()))
+        _FIT[family] = em.HourlyModel(settings={"seed": 7, "supplemental_categorical_columns": ["has_pv"]}).fit(data, ignore_disqualification=True)
+        if "has_pv" not in _FIT[family]._categorical_features:
+            raise RuntimeError("driver: the has_pv flag did not become a model feature")
     if family not in _FIT:
         base = "hourly" if family == "hourly_satgap" else family
         frame = c02.baseline_frame(base, 365, seed=0)
@@ -191,19 +230,21 @@ def run_case(case):
             _FIT[("loaded", family)] = type(model).from_json(model.to_json())
         model = _FIT[("loaded", family)]
         sname += "/loaded"
-    family_pred = "hourly" if family == "hourly_satgap" else family
+    family_pred = "hourly" if family in ("hourly_satgap", "hourly_pv") else family
     viol = []
     key0 = {"family": family}
     # number of usage values
-    if family in ("daily",):
+    if family == "daily" and variant == "hourly_frame":
+        n = len(ds.local_hours(start, days, ZONE))
+    elif family in ("daily",):
         n = days
-    elif family == "hourly_satgap":
+    elif family in ("hourly_satgap", "hourly_pv"):
         n = len(ds.local_hours(start, days, ZONE))
     elif family == "billing":
         n = 1 if days < 28 else len(range(0, days - 24, 30))
     else:
         n = len(ds.local_hours(start, days, ZONE))
-    alts = alterations(n, family)
+    alts = alterations(n, "hourly" if variant == "hourly_frame" else family)
     ref = None
     beh = []
     compared = 0
@@ -238,13 +279,13 @@ def run_case(case):
         if name == "identity":
             ref = pred
             beh.append((name, int(np.isfinite(pred.to_numpy(float)).sum())))
-            if family in ("hourly", "hourly_solar", "caltrack", "hourly_satgap") and not np.isfinite(pred.to_numpy(float)).all():
+            if family in ("hourly", "hourly_solar", "caltrack", "hourly_satgap", "hourly_pv") and not np.isfinite(pred.to_numpy(float)).all():
                 viol.append({"clause": "hourly_row_unpredicted", "key": key0, "detail": f"{sname}: identity run leaves rows unpredicted"})
             continue
         a, b = ref.align(pred, join="inner")
         both = np.isfinite(a.to_numpy(float)) & np.isfinite(b.to_numpy(float))
         compared += int(both.sum())
-        if family in ("hourly", "hourly_solar", "caltrack", "hourly_satgap"):
+        if family in ("hourly", "hourly_solar", "caltrack", "hourly_satgap", "hourly_pv"):
             if len(pred) != len(ref) or not np.isfinite(pred.to_numpy(float)).all():
                 viol.append({"clause": "hourly_row_unpredicted", "key": dict(key0, alt=name),
                              "detail": f"{sname}/{name}: {len(pred)} rows, {int((~np.isfinite(pred.to_numpy(float))).sum())} not finite (identity: {len(ref)} rows)"})
@@ -265,7 +306,7 @@ def cases(tier):
     for f in FAMILIES:
         for sname, _, _ in SETS:
             if sname.startswith("m") and sname[1:].isdigit():
-                if tier == "thorough" and f != "hourly_satgap":
+                if tier == "thorough" and f not in ("hourly_satgap", "hourly_pv"):
                     out.append({"family": f, "set": sname})
                     if sname in ("m03", "m10"):
                         out.append({"family": f, "set": sname, "model": "loaded"})
@@ -276,15 +317,19 @@ def cases(tier):
                 continue
             if f == "hourly_satgap" and sname not in ("feb", "year"):
                 continue
+            if f == "hourly_pv" and sname not in ("dst_month", "week"):
+                continue
             if f in ("daily", "hourly") and sname == "dst_month":
                 out.append({"family": f, "set": sname, "variant": "dup_rows"})
             out.append({"family": f, "set": sname})
-            if sname == "week" and f != "hourly_satgap":
+            if sname == "week" and f not in ("hourly_satgap", "hourly_pv"):
                 out.append({"family": f, "set": sname, "model": "loaded"})
             if f in ("hourly", "hourly_solar") and sname != "year":
                 out.append({"family": f, "set": sname, "variant": "weather_gaps"})
             if f == "daily" and sname != "year":
                 out.append({"family": f, "set": sname, "variant": "six_am_hourly_feed"})
+            if f == "daily" and sname in ("dst_month", "week") or (f == "daily" and sname == "year" and tier == "thorough"):
+                out.append({"family": f, "set": sname, "variant": "hourly_frame"})
     # longest first so the pool is busy
     return out
 
@@ -296,7 +341,7 @@ def run(tier, seed):
     cov = explore.merge_coverage(
         [ex],
         rule="one case = (family's fitted model, reporting set); inside it every alteration of the observed column {x0.5, x7, reversed, "
-        "shuffled, every 2nd NaN, first half NaN, NaN runs, all NaN, absent, all zero, negative, constant} is run and compared with the "
+        "shuffled, every 2nd NaN, first half NaN, NaN runs, scattered exact zeros, all NaN, absent, all zero, negative, constant} is run and compared with the "
         "identity run (plus a trailing blank quarter and blank first/last values); behaviour = per alteration the number of commonly predicted rows",
     )
     cov["rows_compared"] = ex.stats.get("rows_compared", 0)
